@@ -327,7 +327,7 @@ func c14Drainer(w *c14Worker, abort <-chan struct{}, start <-chan struct{}, read
 }
 
 type c14Obs struct {
-	pcl    int // subscriptions that were removed and whose PauseCh is closed
+	pcl    int   // subscriptions that were removed and whose PauseCh is closed
 	idle   []int // per controller: 0 no call in progress, 1 in Resume collecting (wg.Wait), 2 waiting for the mutex, 3 elsewhere
 	paused bool
 	ws     []int
@@ -982,25 +982,27 @@ func c14Teardown() {
 func init() {
 	subcommands["c14child"] = c14ChildMain
 	register(&Driver{
-		Name:     "pause",
-		Header:   c14Header,
-		CaseType: "pcase",
-		Footer:   stdFooter,
-		Rule:     "one case = a population of real stage workers (any mix of the four stages), 1-3 controllers and a SEQUENCE of Pause_c / Resume_c / worker-cancel / shutdown invocations, each followed by a wait for quiescence; all words of length <= 3 (thorough <= 4) over {P0,P1,R0,R1,S0,S1,X} on 2 workers, then random sequences of 4-11 ops on 0-31 workers in which archiver/postprocessor workers are also made BUSY (handed an item that the driver takes back later), a third of them in the shape 'Pause issued while a Resume is in flight waiting for a busy worker'; distinct by input text; non-trivial when a Pause reaches at least one live worker and a Resume or a cancellation follows it",
-		Gen:      genPause,
-		Exec:     execPause,
-		Shrink:   shrinkPause,
-		Teardown: c14Teardown,
+		Name:           "pause",
+		CaseTimeoutSec: 120,
+		Header:         c14Header,
+		CaseType:       "pcase",
+		Footer:         stdFooter,
+		Rule:           "one case = a population of real stage workers (any mix of the four stages), 1-3 controllers and a SEQUENCE of Pause_c / Resume_c / worker-cancel / shutdown invocations, each followed by a wait for quiescence; all words of length <= 3 (thorough <= 4) over {P0,P1,R0,R1,S0,S1,X} on 2 workers, then random sequences of 4-11 ops on 0-31 workers in which archiver/postprocessor workers are also made BUSY (handed an item that the driver takes back later), a third of them in the shape 'Pause issued while a Resume is in flight waiting for a busy worker'; distinct by input text; non-trivial when a Pause reaches at least one live worker and a Resume or a cancellation follows it",
+		Gen:            genPause,
+		Exec:           execPause,
+		Shrink:         shrinkPause,
+		Teardown:       c14Teardown,
 	})
 	register(&Driver{
-		Name:     "pauseconc",
-		Header:   c14Header,
-		CaseType: "pcase",
-		Footer:   "\nDefinition DIFF := Eval vm_compute in cdiffs cases.\nPrint DIFF.\nDefinition MON := Eval vm_compute in mons cases.\nPrint MON.\n",
-		Rule:     "one case = real stage workers and ROUNDS of simultaneously issued invocations (calls from distinct controllers, cancellations, shutdown) with a wait for quiescence after each round; monitors only; every fourth case is the Unsubscribe/Pause race shape (16-48 workers, Pause together with shutdown), every fourth the Pause-during-Resume-with-a-busy-worker shape; non-trivial as for the sequential driver",
-		Gen:      genPauseConc,
-		Exec:     execPause,
-		Shrink:   shrinkPause,
-		Teardown: c14Teardown,
+		Name:           "pauseconc",
+		CaseTimeoutSec: 120,
+		Header:         c14Header,
+		CaseType:       "pcase",
+		Footer:         "\nDefinition DIFF := Eval vm_compute in cdiffs cases.\nPrint DIFF.\nDefinition MON := Eval vm_compute in mons cases.\nPrint MON.\n",
+		Rule:           "one case = real stage workers and ROUNDS of simultaneously issued invocations (calls from distinct controllers, cancellations, shutdown) with a wait for quiescence after each round; monitors only; every fourth case is the Unsubscribe/Pause race shape (16-48 workers, Pause together with shutdown), every fourth the Pause-during-Resume-with-a-busy-worker shape; non-trivial as for the sequential driver",
+		Gen:            genPauseConc,
+		Exec:           execPause,
+		Shrink:         shrinkPause,
+		Teardown:       c14Teardown,
 	})
 }
